@@ -79,7 +79,7 @@ Definition show_entry (e : entry) : string :=
 Definition show_log (l : list entry) : string := sconcat (map (fun e => show_entry e +++ "; ") l).
 
 Record case := {
-  c_variant : bool; c_bodies : list (Z * body); c_clients : list (list op); c_choices : list Z;
+  c_variant : variant; c_bodies : list (Z * body); c_clients : list (list op); c_choices : list Z;
   c_log : list entry; c_finished : bool; c_has_jobs : bool }.
 
 Fixpoint first_diff (n : Z) (a b : list entry) : Z :=
@@ -100,7 +100,7 @@ Definition model_case (c : case) : string :=
 Definition model_cases (l : list case) : string := sconcat (map (fun c => model_case c +++ "|") l).
 
 (* the model's own run, printed (replay, diagnostics) *)
-Definition model_show (once : bool) (bs : list (Z * body)) (cl : list (list op)) (ch : list Z) : string :=
+Definition model_show (once : variant) (bs : list (Z * body)) (cl : list (list op)) (ch : list Z) : string :=
   show_log (log (run_model (bodies_of bs) once cl ch)).
 
 (* which branches of the access programs a run exercised: (point before, point after) of every
@@ -114,7 +114,7 @@ Definition show_point (p : point) : string :=
   | Sp0 _ => "Sp0" | Sp1 _ => "Sp1" | Sp2 _ => "Sp2" | Bg0 _ => "Bg0" | Bg1 _ => "Bg1"
   | Job0 _ q => if q then "Job0q" else "Job0b" | Job1 _ q => if q then "Job1q" else "Job1b"
   | Job2 _ q => if q then "Job2q" else "Job2b"
-  | Clear0 => "Clear0" | Has0 => "Has0" | Has1 => "Has1" | Has2 => "Has2"
+  | Clear0 => "Clear0" | Clear1 => "Clear1" | Has0 => "Has0" | Has1 => "Has1" | Has2 => "Has2"
   | Isr0 _ => "Isr0" | Isr1 _ => "Isr1" | Isr2 _ => "Isr2" | Cur0 => "Cur0" | Qd0 => "Qd0" | Stop0 _ => "Stop0"
   | Sj0 _ => "Sj0" | Sj1 _ => "Sj1" | Sj2 _ => "Sj2" | Sj3 => "Sj3" | Sj4 _ => "Sj4" | Sj5 _ => "Sj5" | Sj6 _ => "Sj6"
   end.
@@ -127,7 +127,7 @@ Definition show_pc (p : pc) : string :=
   end.
 Definition pc_at (c : config pc) (t : nat) : string :=
   match nth_error (thr c) t with Some p => show_pc p | None => "?" end.
-Fixpoint edges (bd : Z -> body) (once : bool) (c : config pc) (tids : list nat) : string :=
+Fixpoint edges (bd : Z -> body) (once : variant) (c : config pc) (tids : list nat) : string :=
   match tids with
   | [] => ""
   | t :: r =>
